@@ -154,6 +154,11 @@ def run(ck):
     shared.no_new_state(ck, ['vermouth/map_parser.py', 'vermouth/map_input.py'])
     # "constituents without coordinates never contribute": an atom the repair step adds has none, and is not handed any on the way (F27)
     shared.rebuilt_atom_no_coordinates(ck, 'PROV-no-coordinates')
+    # .. nor by the intermediate structure files the command line may write before the mapping (-write-graph / -write-repair / -write-canon): the PDB writer
+    # leaves the atoms it writes unchanged (a `setdefault('position', nan)` would turn "no coordinates" into "NaN coordinates" for everything downstream)
+    pdbm = ck.index.mod('vermouth/pdb/pdb.py')
+    pwf = pdbm.func('write_pdb_string')
+    shared.pure_writer(ck, pdbm, pwf, [pwf.args.args[0].arg])
     # the weight table stored on the particle is the table itself (null weights included), not a filtered copy
     shared.runs_every_molecule(ck, 'vermouth/processors/average_beads.py', 'DoAverageBead', 'MPT-every-molecule')
     ck.assume('the arithmetic of numpy.average and rigid-motion equivariance are not decided')
